@@ -33,7 +33,8 @@ SPEC = {
               11: "ToJSON(LoadJSON(ToJSON(cfg))) differs from ToJSON(cfg)", 12: "secret present in ToDisplayJSON",
               13: "a well-formed setting of the document is missing from the loaded configuration", 14: "default configuration invalid",
               15: "a section of the accepted file whose component is not registered in the Manager is lost or altered by ToJSON/SaveJSON",
-              16: "a member named secret/private_key/basic_auth_credentials is shown in Manager.ToDisplayJSON without the hidden marker"},
+              16: "a member named secret/private_key/basic_auth_credentials is shown in Manager.ToDisplayJSON without the hidden marker",
+              17: "the Manager accepted a file although a section in it is refused by its registered component"},
     "tags": {1: "raft-namespace-dropped", 2: "mergo-drops-false-bool"},
     "trusted": ["time.ParseDuration/Duration.String, multiaddr, peer ID, hex and key parsers: abstract (the harness tells the model accept/reject and the canonical form)",
                 "encoding/json, envconfig, mergo (zero values skipped with WithOverride)"],
